@@ -50,6 +50,7 @@ def run(ctx):
                     if len(ctx.samples) < 2:
                         ctx.samples.append({"trace": tid})
     ctx.extra["traces"] = ntr
+    ctx.records += ntr
     ctx.validate("NewtonLawsTrace", laws)
     ctx.require_clauses(["Commit", "Check", "Return", "Raise", "Frame", "Callback", "RampUpdate",
                          "BCExact", "Equilibrium", "LinearOneStep", "ReducedSystem", "PrescribedIncrement"])
